@@ -57,8 +57,9 @@ V11_EMIT = ["V11_emit.encode_function_body.*", "V11_emit.fn:encode_function_body
 V12_EXPORTS = ["V12_sections.encode_exports.*", "V12_sections.fn:Module::encode_exports", "V12_sections.fn:ModuleExports::iter"]
 V12_START = ["V12_sections.encode_start.*", "V12_sections.fn:Module::encode_start"]
 V12_DATA = ["V12_sections.encode_data_segments.*", "V12_sections.fn:Module::encode_data_segments"]
-V12_GLOBALS = ["V12_sections.encode_globals.*", "V12_sections.fn:Module::encode_globals", "V12_sections.fn:ModuleGlobals::iter_mut", "V12_sections.fn:Global as GetID::get_id"]
+V12_GLOBALS = ["V12_sections.encode_globals.*", "V12_sections.fn:Module::encode_globals", "V12_sections.fn:ModuleGlobals::iter_mut", "V12_sections.fn:Global as GetID::*"]
 V12_IMPORTS = ["V12_sections.encode_imports.*", "V12_sections.fn:Module::encode_imports", "V12_sections.fn:ModuleImports::iter", "V12_sections.fn:Import::is_function"]
+V12_MEMS = ["V12_sections.encode_memories.local_memories_in_order_with_own_type", "V12_sections.fn:Module::encode_memories", "V12_sections.fn:Memories as Iter::iter"]
 V12_CUSTOM = ["V12_sections.encode_custom_sections.*", "V12_sections.fn:Module::encode_custom_sections", "V12_sections.fn:CustomSections::iter"]
 V12_TRUST = ["TRUSTED model of the wasm-encoder section builders (V12): an export / data / custom section under construction is the sequence of entries handed to it; ExportKind::from(ExternalKind) is faithful; InitExpr::to_wasmencoder_type is faithful (numeric constants: Kani K4)",
              "V12 names three expressions of the data loop and one statement of the custom-section loop by rule R11 (iterator adapters / generic builders are outside Verus): their contracts are assumed; V12 assumes the InitInstr::fix_id_mapping contract that V3 proves",
@@ -218,7 +219,7 @@ PROPS = {
         "kani_thorough": ["k4_initexpr_numeric_const_matches_upstream"],   # ~4 min of CBMC: thorough tier only
         "obligations": ["K:k1_valtype_roundtrip*", "K:k4_*"] + V6_GLOBALS + V6_MEMS + ["V6b_api2.add_data.*", "V6b_api2.fn:Module::add_data", "V6b_api2.ModuleExports.add_export_*", "V6b_api2.fn:ModuleExports::add_export_*",
                         "V3_remap.InitInstr.*", "V3_remap.fn:InitInstr::fix_id_mapping"],
-        "obligations_extra": V12_GLOBALS + V12_EXPORTS + V12_DATA,
+        "obligations_extra": V12_MEMS + V12_GLOBALS + V12_EXPORTS + V12_DATA,
         "glue": V12_TRUST + [ENCODE_GLUE, "DataType -> ValType (content type) is abstract here (valtype_of); bit-exactness of constants (InitExpr::to_wasmencoder_type) and the emission of limits / payloads are not under contract at this commit"],
         "design_ref": "DESIGN.md §5 C30",
     },
@@ -373,12 +374,13 @@ PROPS = {
         "units": ["V12_sections"],
         "obligations": ["V12_sections.encode_exports.one_record_per_live_tagged_export", "V12_sections.encode_exports.no_other_records", "V12_sections.fn:Module::encode_exports",
                         "V12_sections.encode_imports.one_record_per_live_tagged_import", "V12_sections.fn:Module::encode_imports",
-                        "V12_sections.fn:Export as TagUtils::get_tag", "V12_sections.fn:Import as TagUtils::get_tag"],
+                        "V12_sections.fn:Export as TagUtils::get_tag", "V12_sections.fn:Import as TagUtils::get_tag",
+                        "V12_sections.encode_memories.one_record_per_tagged_local_memory", "V12_sections.fn:Module::encode_memories", "V12_sections.fn:Memory as TagUtils::get_tag"],
         "glue": ["ASSUMED: add_injection (a HashMap entry().and_modify(closure).or_insert() chain) appends the record to the list of its kind and touches nothing else; #[derive(Clone)] of Tag and String::clone yield equal values; str::to_string is modelled by an uninterpreted str_owned",
-                 "only the Import and Export records are decided. Records for types, functions, locals, globals, memories, data, tables, elements and probes (add_injections / add_opcode_injections / add_corrected_special_injections: closure-based, over HashMaps) are NOT under contract; that probe bodies use the encoded index space follows only from V11 (every injected operator is remapped in place before the records are built) and is not stated as a clause",
+                 "only the Import, Export and Memory records are decided. Records for types, functions, locals, globals, data, tables, elements and probes (add_injections / add_opcode_injections / add_corrected_special_injections: closure-based, over HashMaps) are NOT under contract; that probe bodies use the encoded index space follows only from V11 (every injected operator is remapped in place before the records are built) and is not stated as a clause",
                  "that items of the parsed module carry no tag (so get no record) is a property of parse_internal (it builds every item with tag None): read, not proved"],
         "design_ref": "DESIGN.md §5 C23",
-        "level_text": "Partial (two of twelve record kinds): when side effects are pulled, the report gains exactly one Export record per live tagged export and exactly one Import record per live tagged import - with the item's own name / kind / index resp. module / name / type and its tag - and no record for untagged or deleted ones; nothing else in the report changes in those two loops. After fix F25.",
+        "level_text": "Partial (three of twelve record kinds): when side effects are pulled, the report gains exactly one Export record per live tagged export, one Import record per live tagged import and one Memory record per tagged local memory - with the item's own name / kind / index resp. module / name / type resp. id / limits and its tag - and no record for untagged or deleted ones; nothing else in the report changes in those three loops. After fix F25.",
     },
 }
 
